@@ -11,7 +11,7 @@ import (
 	oid "github.com/nspcc-dev/neofs-sdk-go/object/id"
 )
 
-// VerifC07LockProtects: an object with a lock: for every current epoch
+// VerifC07LockProtects: an object with one or two locks: for every current epoch
 // (symbolic) and forked expirations of object and lock, with the lock object
 // optionally garbage-marked (removed): a tombstone is rejected exactly while
 // the lock is live; expired-object iteration never yields a locked object; a
@@ -26,13 +26,21 @@ func VerifC07LockProtects() {
 	l := vmObj(0, 3, object.TypeLock, expL, 0)
 	l.AssociateLocked(vmOID(1))
 	vrt.Assert(db.Put(l) == nil, "put lock")
+	// optionally a second lock (larger ID) with its own expiration
+	second := vrt.Bool("secondLock")
+	expL2 := exps[1+vrt.Choice("secondLockExpiration", 2)]
+	if second {
+		l2 := vmObj(0, 4, object.TypeLock, expL2, 0)
+		l2.AssociateLocked(vmOID(1))
+		vrt.Assert(db.Put(l2) == nil, "put second lock")
+	}
 	lockRemoved := vrt.Bool("lockObjectRemoved")
 	if lockRemoved {
 		_, err := db.MarkGarbage(vmCID(0), []oid.ID{vmOID(3)}, GarbageMarkDefault)
 		vrt.Assert(err == nil, "operator removes the lock object")
 	}
 	ep.e = vrt.U64("epoch")
-	live := !lockRemoved && ep.e <= uint64(expL)
+	live := !lockRemoved && ep.e <= uint64(expL) || second && ep.e <= uint64(expL2)
 
 	// expired-object iteration
 	sawT := false
